@@ -1,22 +1,30 @@
 /-
   C14 — Solution files round-trip exactly and follow the solution schema.
-  Property theorems only (helper lemmas: CRProofs/SolutionXml.lean; model: CRModel/SolutionXml.lean, a mirror of
-  commonroad/common/solution.py and of CommonRoadSolution_schema.xsd).
+  Property theorems only (helper lemmas: CRProofs/SolutionXml.lean, SolutionLex.lean, SolutionDoc.lean; model:
+  CRModel/SolutionXml.lean, a mirror of commonroad/common/solution.py and of CommonRoadSolution_schema.xsd).
 
-  Number / date text is a parameter (`Codec`): the theorems hold for every codec that reads back what it printed
-  (`Codec.Lawful`, trusted for CPython/numpy, sampled by the float.hex oracle on every run).
-  The benchmark id is modelled at token level (vehicle ids, cost ids, scenario id, version); see the model header.
+  What is assumed, and where.  Number / date text is a parameter (`Codec`).  A theorem about reading needs
+  `c.LawfulFor s`: for the number tokens and the date that OCCUR in `s` (and for every integer) the codec reads
+  back what it printed.  A theorem about the schema needs the printed texts of the tokens that occur in `s` to be
+  lexically valid.  Both are discharged for the concrete decimal-text codec `Codec.py` (a number token is the text
+  Python writes; its grammar is `pyNumL`: optional `-`, digits, optional `.digits`, optional `e±digits`) and the
+  concrete checkers `Lex.xsd` in `C14_sol_roundtrip_py` / `C14_sol_valid_xsd`.  What stays trusted is CPython's
+  contract that `str(x)` of a finite float is such a text and that `float(str(x)) == x` bit for bit (the text
+  determines the value): sampled on every run by the float.hex oracle and the `py_texts` correspondence.
+  The benchmark-id string is handled by C13's character-level model; `C14_doc_roundtrip` composes the two.
 -/
-import CRProofs.SolutionXml
+import CRProofs.SolutionDoc
+import CRProps.C13
+set_option linter.unusedSimpArgs false
 namespace CR.Sol
 
-/-! ## (a) the field tables are index-aligned — decided over the whole table -/
+/-! ## (a) the field tables are index-aligned — decided over the whole (finite) table -/
 
 /-- For every member of `StateFields` / `XMLStateFields`: same length; the XML element names are pairwise different
     (so `find(name)` is unambiguous); the field names are pairwise different; a tuple entry sits exactly at
     `position` and the name "time" exactly at `time_step`; the reader's state class for that member has exactly the
     member's fields as attributes; the reader's `state_types` table has an entry for it; and the trajectory tag maps
-    back to the member. -/
+    back to the member.  (A finite check: `decide` for each of the seven members.) -/
 theorem C14_tables_aligned (T : TType) :
     (fields T).length = (xmlFields T).length ∧
     (leafNames T).Nodup ∧ (fields T).Nodup ∧
@@ -27,98 +35,144 @@ theorem C14_tables_aligned (T : TType) :
     TType.ofTrajTag? (trajTag T) = some T := by
   cases T <;> decide
 
-/-- The same facts in the Boolean form the proofs consume. -/
-theorem C14_tables_ok (T : TType) : tableOK T = true ∧ tableOK2 T = true :=
-  ⟨tableOK_all T, tableOK2_all T⟩
-
 /-! ## (b) round trip -/
 
-/-- One state: written with the table of `T`, read back with the table of `T`, gives the values of all of `T`'s
-    fields, held by the class of `T`.  Any lawful number codec, any typed state, every `T`. -/
-theorem C14_state_roundtrip (c : Codec) (hc : c.Lawful) (T : TType) (st : State)
+/-- One state: written with the table of `T` and read back with the table of `T` — for any codec that reads back the
+    number tokens of THIS state, any typed state, every `T` — gives a state `st'` of the class of `T` that carries,
+    for every field of `T`, the very value token that went in ("bit-identical state values"). -/
+theorem C14_state_roundtrip (c : Codec) (T : TType) (st : State)
+    (hnum : ∀ v ∈ stateToks st, c.prsNum (c.fmtNum v) = .ok v) (hint : ∀ i, c.prsInt (c.fmtInt i) = .ok i)
     (ht : typedFor (table T) st = true) :
-    ∃ n, createStateNode c T st = .ok n ∧ parseState c T n = .ok (projectState T st) :=
-  ⟨_, createStateNode_ok c T st ht, parseState_written c hc T st ht⟩
+    ∃ n st', createStateNode c T st = .ok n ∧ parseState c T n = .ok st' ∧ attrsOf st' = classAttrs T ∧
+      ∀ f ∈ fields T, getattr st' f = getattr st f ∧ getattr st f ≠ none :=
+  ⟨_, _, createStateNode_ok c T st ht, parseState_written c T st hnum hint ht, attrsOf_project T st,
+    project_values T st ht⟩
 
-/-- … and the state that comes back carries, for every field of `T`, the very value token that went in
-    ("bit-identical state values"). -/
-theorem C14_state_values (T : TType) (st : State) (ht : typedFor (table T) st = true) :
-    ∀ f ∈ fields T, getattr (projectState T st) f = getattr st f ∧ getattr st f ≠ none := by
-  intro f hf
-  obtain ⟨hmap, _, hsub, _, _, _, _, _⟩ := tableOK_parts T
-  rw [← hmap, List.mem_map] at hf
-  obtain ⟨e, he, rfl⟩ := hf
-  have hok := typed_entry ht he
-  unfold entryOK at hok
-  cases hg : getattr st e.2 with
-  | none => simp [hg] at hok
-  | some v =>
-    rw [getattr_project T st e.2 (hsub e he)]
-    simp [valOf, hg]
-
-/-- The whole document.  For every admissible solution — any number of planning problems, every vehicle model ×
+/-- The whole element tree.  For every admissible solution — any number of planning problems, every vehicle model ×
     trajectory type × cost function the constructors accept, any number of states in any order, optional date,
-    computation time and processor name — writing succeeds and reading the written tree gives `normSol auto s`:
-    the same solution with each trajectory's states in ascending time-step order (stable), each state reduced to
-    the fields of its trajectory type, the date cut to the second, and the keyword "auto" replaced by the machine's
-    processor name. -/
-theorem C14_sol_roundtrip (c : Codec) (hc : c.Lawful) (auto : Option String) (s : Solution)
-    (h : Admissible c s) :
+    computation time and processor name — and every codec that reads back the tokens occurring in it, writing
+    succeeds and reading the written tree gives `normSol auto s`: the same solution with each trajectory's states in
+    ascending time-step order (stable), each state reduced to the fields of its trajectory type, the date cut to the
+    second, and the keyword "auto" replaced by the machine's processor name. -/
+theorem C14_sol_roundtrip (c : Codec) (auto : Option String) (s : Solution)
+    (hc : c.LawfulFor s) (h : Admissible c s) :
     ∃ r, encodeSol c auto s = .ok r ∧ decodeSol c r = .ok (normSol auto s) := by
   obtain ⟨hgood, hdist, hpos⟩ := h
   refine ⟨_, encodeSol_ok c auto s hgood, ?_⟩
-  have hnodes := parseNodes_written c hc s.pps hgood
+  have hnodes := parseNodes_written c hc.int s.pps (LawfulFor_states hc) hgood
   have hdict := dictOf_distinct _ (distinctIds_map_norm s.pps hdist)
-  simp only [decodeSol, parseHeader_written c hc auto s, benchOf, hnodes, mkSolution, hdict, normSol]
+  simp only [decodeSol, parseHeader_written c auto s (LawfulFor_ct hc) hc.date, benchOf, hnodes, mkSolution, hdict,
+    normSol]
   cases hct : s.ct with
   | none => rfl
   | some t => simp [hpos t hct]
 
-/-- What `normSol` keeps unchanged: benchmark id (vehicle ids, cost ids, scenario id, version), planning-problem
-    ids, trajectory types, computation time; the processor name unless it is the keyword "auto". -/
-theorem C14_roundtrip_keeps (auto : Option String) (s : Solution) :
-    benchOf (normSol auto s) = benchOf s ∧
-    (normSol auto s).pps.map (·.ppId) = s.pps.map (·.ppId) ∧
-    (normSol auto s).pps.map (·.ttype) = s.pps.map (·.ttype) ∧
-    (normSol auto s).ct = s.ct ∧
-    (s.proc ≠ some "auto" → (normSol auto s).proc = s.proc) ∧
-    (normSol auto s).date = s.date.map (fun d => ⟨d.sec, 0⟩) := by
-  refine ⟨?_, ?_, ?_, rfl, ?_, rfl⟩
+/-- The same with the concrete decimal-text codec: the only hypotheses about numbers are that the number tokens of
+    `s` are texts of Python's number grammar and the date a `strftime` text. -/
+theorem C14_sol_roundtrip_py (auto : Option String) (s : Solution) (h : Admissible Codec.py s)
+    (hn : ∀ v ∈ numToks s, pyNumL v.toList = true) (hd : ∀ d, s.date = some d → pyDateL d.sec.toList = true) :
+    ∃ r, encodeSol Codec.py auto s = .ok r ∧ decodeSol Codec.py r = .ok (normSol auto s) :=
+  C14_sol_roundtrip Codec.py auto s (Codec.py_lawfulFor s hn hd) h
+
+/-- What comes back from `decodeSol (encodeSol s)`, clause by clause of the property text: the same benchmark id
+    (vehicle ids, cost ids, scenario id, version), planning-problem ids, trajectory types, computation time, the
+    processor name (unless it was the keyword "auto"), the date to the second. -/
+theorem C14_roundtrip_keeps (c : Codec) (auto : Option String) (s : Solution)
+    (hc : c.LawfulFor s) (h : Admissible c s) :
+    ∃ r s', encodeSol c auto s = .ok r ∧ decodeSol c r = .ok s' ∧
+      benchOf s' = benchOf s ∧
+      s'.pps.map (·.ppId) = s.pps.map (·.ppId) ∧
+      s'.pps.map (·.ttype) = s.pps.map (·.ttype) ∧
+      s'.ct = s.ct ∧
+      (s.proc ≠ some "auto" → s'.proc = s.proc) ∧
+      s'.date = s.date.map (fun d => ⟨d.sec, 0⟩) := by
+  obtain ⟨r, h1, h2⟩ := C14_sol_roundtrip c auto s hc h
+  refine ⟨r, _, h1, h2, ?_, ?_, ?_, rfl, ?_, rfl⟩
   · simp [benchOf, normSol, normPPS, Function.comp_def]
   · simp [normSol, normPPS, Function.comp_def]
   · simp [normSol, normPPS, Function.comp_def]
   · intro h; simp [normSol, h]
 
-/-- The states that come back are in ascending time-step order and are exactly the written states (a permutation
-    of them, each reduced to the type's fields). -/
-theorem C14_roundtrip_time_ascending (T : TType) (tr : Traj) :
-    (normTraj T tr).states.Pairwise (fun a b => timeOf a ≤ timeOf b) ∧
-    (normTraj T tr).states.Perm (tr.states.map (projectState T)) := by
-  refine ⟨?_, List.mergeSort_perm _ _⟩
-  have := List.pairwise_mergeSort timeLe_trans timeLe_total (tr.states.map (projectState T))
-  exact this.imp (fun h => by simpa [timeLe] using h)
+/-- … and the states: every planning problem of `decodeSol (encodeSol s)` stems from one of `s` with the same id and
+    type; its time steps are in ascending order; its states are a permutation of the written ones; and each state
+    that comes back carries, for every field of the trajectory type, the value token of the written state it stems
+    from. -/
+theorem C14_roundtrip_states (c : Codec) (auto : Option String) (s : Solution)
+    (hc : c.LawfulFor s) (h : Admissible c s) :
+    ∃ r s', encodeSol c auto s = .ok r ∧ decodeSol c r = .ok s' ∧ s'.pps.length = s.pps.length ∧
+      ∀ p' ∈ s'.pps, ∃ p ∈ s.pps, p'.ppId = p.ppId ∧ p'.ttype = p.ttype ∧
+        p'.traj.states.Pairwise (fun a b => timeOf a ≤ timeOf b) ∧
+        p'.traj.states.length = p.traj.states.length ∧
+        p'.traj.states.Perm (p.traj.states.map (projectState p.ttype)) ∧
+        ∀ st' ∈ p'.traj.states, ∃ st ∈ p.traj.states, timeOf st' = timeOf st ∧
+          ∀ f ∈ fields p.ttype, getattr st' f = getattr st f ∧ getattr st f ≠ none := by
+  obtain ⟨r, h1, h2⟩ := C14_sol_roundtrip c auto s hc h
+  refine ⟨r, _, h1, h2, by simp [normSol], ?_⟩
+  intro p' hp'
+  simp only [normSol, List.mem_map] at hp'
+  obtain ⟨p, hp, rfl⟩ := hp'
+  have hgood := h.1
+  rw [List.all_eq_true] at hgood
+  obtain ⟨ht, _, _⟩ := goodTraj_parts (goodPPS_parts (hgood p hp)).2.2
+  obtain ⟨hsorted, hperm⟩ := normTraj_states p.ttype p.traj
+  refine ⟨p, hp, rfl, rfl, hsorted, by simpa [normPPS] using hperm.length_eq, hperm, ?_⟩
+  intro st' hst'
+  have := hperm.mem_iff.1 hst'
+  rw [List.mem_map] at this
+  obtain ⟨st, hst, rfl⟩ := this
+  exact ⟨st, hst, (time_project p.ttype st (ht st hst)).2, project_values p.ttype st (ht st hst)⟩
 
 /-- `decodeSol (encodeSol s) = s` — exact round trip for every admissible solution in normal form (time steps
     ascending, states of the type's own class, date to the second, processor name not the keyword "auto"). -/
-theorem C14_sol_roundtrip_exact (c : Codec) (hc : c.Lawful) (auto : Option String) (s : Solution)
-    (h : Admissible c s) (hn : IsNormal s) :
+theorem C14_sol_roundtrip_exact (c : Codec) (auto : Option String) (s : Solution)
+    (hc : c.LawfulFor s) (h : Admissible c s) (hn : IsNormal s) :
     ∃ r, encodeSol c auto s = .ok r ∧ decodeSol c r = .ok s := by
-  have := C14_sol_roundtrip c hc auto s h
+  have := C14_sol_roundtrip c auto s hc h
   rwa [normSol_of_normal auto s h.1 hn] at this
+
+/-! ### the benchmark-id string (composition with C13) -/
+
+/-- The text the writer stores in the `benchmark_id` attribute is C13's `Solution.benchmark_id` of the solution's
+    (model, type) pairs, cost functions and scenario id, and the solution reader recovers from it exactly these, in
+    the order of the trajectories (C13_solution_roundtrip, cited). -/
+theorem C14_benchmark_id_roundtrip {cs : List CR.BenchId.Str} (hcs : CR.BenchId.CountriesOk cs)
+    {r : CR.BenchId.Raw} (hv : CR.BenchId.Valid cs r) (s : Solution) (hne : s.pps ≠ [])
+    (hscen : s.scen = String.ofList (CR.BenchId.print (CR.BenchId.norm r)))
+    (hver : s.ver = String.ofList (CR.BenchId.norm r).version) :
+    (benchString (benchOf s)).toList = CR.BenchId.benchmarkId (bVehicles s) (bCosts s) (CR.BenchId.norm r) ∧
+    CR.BenchId.readSolutionIds cs (benchString (benchOf s)).toList s.pps.length =
+      .ok (CR.BenchId.zip3 (bVehicles s) (bCosts s), CR.BenchId.norm r) := by
+  have hb := benchString_eq s (CR.BenchId.norm r) hscen hver
+  refine ⟨hb, ?_⟩
+  rw [hb]
+  have := CR.BenchId.C13_solution_roundtrip hcs hv (bVehicles s) (bCosts s) (by simp [bVehicles, bCosts])
+    (by simpa [bVehicles] using hne)
+  simpa [bVehicles] using this
+
+/-- The document with the benchmark id as ONE attribute string: header, C13's `_parse_benchmark_id` /
+    `ScenarioID.from_benchmark_id` on the attribute text, trajectories, `Solution(...)`.  For every admissible
+    solution with at least one planning problem whose scenario id is a valid one (C13's domain), reading the written
+    document gives `normSol auto s`. -/
+theorem C14_doc_roundtrip (c : Codec) {cs : List CR.BenchId.Str} (hcs : CR.BenchId.CountriesOk cs)
+    {r : CR.BenchId.Raw} (hv : CR.BenchId.Valid cs r) (auto : Option String) (s : Solution)
+    (hc : c.LawfulFor s) (h : Admissible c s) (hne : s.pps ≠ [])
+    (hscen : s.scen = String.ofList (CR.BenchId.print (CR.BenchId.norm r)))
+    (hver : s.ver = String.ofList (CR.BenchId.norm r).version) :
+    ∃ root, encodeSol c auto s = .ok root ∧ decodeDoc c cs (toDoc root) = .ok (normSol auto s) :=
+  decodeDoc_written c cs hcs hv auto s hc h hne hscen hver
 
 /-! ## (c) the written document conforms to the schema -/
 
 /-- For every admissible solution whose trajectory types are all defined by the schema and listed in the schema's
-    order, whose time steps fit `xs:int`, and whose number / date texts are in the lexical spaces of `xs:float` /
-    `xs:dateTime` (Python's `repr` of a finite double, `strftime` with a four-digit year), the written tree is
-    valid against the schema's content model. -/
+    order: if the printed texts of the number tokens, the date and the time steps that OCCUR in the solution are
+    lexically valid for `xs:float` / `xs:dateTime` / `xs:int`, the written tree is valid against the schema's
+    content model. -/
 theorem C14_sol_valid (c : Codec) (lx : Lex) (auto : Option String) (s : Solution)
     (h : Admissible c s)
     (hord : inSchemaOrder solSchema (s.pps.map fun p => trajTag p.ttype) = true)
-    (hF : ∀ v, lx.float (c.fmtNum v) = true)
-    (hD : ∀ d, lx.dateTime (c.fmtDate d) = true)
-    (hI : ∀ t : Int, 0 ≤ t → t ≤ 2147483647 → lx.int (c.fmtInt t) = true)
-    (hT : ∀ p ∈ s.pps, ∀ st ∈ p.traj.states, timeOf st ≤ 2147483647) :
+    (hF : ∀ v ∈ numToks s, lx.float (c.fmtNum v) = true)
+    (hD : ∀ d, s.date = some d → lx.dateTime (c.fmtDate d.sec) = true)
+    (hI : ∀ t ∈ timeSteps s, lx.int (c.fmtInt t) = true) :
     ∃ r, encodeSol c auto s = .ok r ∧ validate lx solSchema r = true := by
   obtain ⟨hgood, _, _⟩ := h
   refine ⟨_, encodeSol_ok c auto s hgood, ?_⟩
@@ -139,32 +193,78 @@ theorem C14_sol_valid (c : Codec) (lx : Lex) (auto : Option String) (s : Solutio
       obtain ⟨p, hp, rfl⟩ := hn
       have hg := (goodPPS_parts (hgood p hp)).2.2
       have hrow := rowOK_all p.ttype (hsome p hp) d hd htag
-      apply validTraj_written c lx p d hrow hg hF
-      intro st hst
-      exact hI _ ((goodTraj_parts hg).2.1 st hst) (hT p hp st hst)
+      apply validTraj_written c lx p d hrow hg
+      · intro st hst v hv
+        apply hF
+        simp only [numToks, List.mem_append, List.mem_flatMap, ppsToks]
+        exact Or.inl ⟨p, hp, st, hst, hv⟩
+      · intro st hst
+        apply hI
+        simp only [timeSteps, List.mem_flatMap, List.mem_map]
+        exact ⟨p, hp, st, hst, rfl⟩
   have hb : (solSchema.attrs.lookup "benchmark_id").isSome = true := by decide
-  simp only [validate, validAttrs_written c lx auto s hF hD, hseq, hb, Bool.and_true, beq_iff_eq]
+  have hattrs := validAttrs_written c lx auto s (fun t ht => hF t (by simp [numToks, ht])) hD
+  simp only [validate, hattrs, hseq, hb, Bool.and_true, beq_iff_eq]
   rfl
 
-/-- The schema does not define the KST trajectory type (so the property text exempts it). -/
-theorem C14_kst_not_in_schema : schemaIndex solSchema (trajTag .KST) = none := by decide
+/-- The schema clause about the REAL lexical spaces: with the decimal-text codec (tokens are the texts Python
+    writes) and the concrete `xs:float` / `xs:int` / `xs:dateTime` checkers, for every admissible solution whose
+    types the schema defines, listed in its order, whose numbers are finite (their text is of Python's number
+    grammar — not `inf` / `nan`), whose date has a four-digit year and whose time steps fit 32 bits, the written
+    tree is valid. -/
+theorem C14_sol_valid_xsd (auto : Option String) (s : Solution) (h : Admissible Codec.py s)
+    (hord : inSchemaOrder solSchema (s.pps.map fun p => trajTag p.ttype) = true)
+    (hn : ∀ v ∈ numToks s, pyNumL v.toList = true)
+    (hd : ∀ d, s.date = some d → pyDateL d.sec.toList = true)
+    (ht : ∀ t ∈ timeSteps s, t ≤ 2147483647) :
+    ∃ r, encodeSol Codec.py auto s = .ok r ∧ validate Lex.xsd solSchema r = true := by
+  apply C14_sol_valid Codec.py Lex.xsd auto s h hord
+  · intro v hv
+    exact isXsFloat_of_pyNum v (hn v hv)
+  · intro d hd'
+    exact isXsDateTime_of_pyDate d.sec (hd d hd')
+  · intro t htm
+    have h0 : 0 ≤ t := by
+      simp only [timeSteps, List.mem_flatMap, List.mem_map] at htm
+      obtain ⟨p, hp, st, hst, rfl⟩ := htm
+      have hgood := h.1
+      rw [List.all_eq_true] at hgood
+      exact (goodTraj_parts (goodPPS_parts (hgood p hp)).2.2).2.1 st hst
+    exact isXsInt_repr t h0 (ht t htm)
 
-/-- The other six types are defined, in this order. -/
+/-- The schema does not define the KST trajectory type (so the property text exempts it); the other six types are
+    defined, in this order.  (Finite facts about the schema term, by evaluation.) -/
 theorem C14_schema_order :
+    schemaIndex solSchema (trajTag .KST) = none ∧
     [TType.PMInput, .Input, .PM, .KS, .ST, .MB].map (fun T => schemaIndex solSchema (trajTag T)) =
       [some 0, some 1, some 2, some 3, some 4, some 5] := by decide
 
-/-- A document that starts with a KST trajectory is rejected by the schema's content model (so the exemption
-    is needed: `sol_valid` cannot hold for KST). -/
-theorem C14_kst_document_invalid (c : Codec) (lx : Lex) (auto : Option String) (s : Solution) (p : PPS)
-    (ps : List PPS) (hs : s.pps = p :: ps) (hk : p.ttype = .KST) (hg : s.pps.all goodPPS = true) :
+/-- A document that contains a KST trajectory AT ANY POSITION is rejected by the schema's content model, for every
+    codec and every lexical checker (so the exemption in the property text is needed). -/
+theorem C14_kst_document_invalid (c : Codec) (lx : Lex) (auto : Option String) (s : Solution)
+    (hg : s.pps.all goodPPS = true) (hk : ∃ p ∈ s.pps, p.ttype = .KST) :
+    ∃ r, encodeSol c auto s = .ok r ∧ validate lx solSchema r = false := by
+  refine ⟨_, encodeSol_ok c auto s hg, ?_⟩
+  obtain ⟨p, hp, hpk⟩ := hk
+  have : matchSeq lx solSchema.trajs (s.pps.map (ppsNode c)) = false := by
+    cases hm : matchSeq lx solSchema.trajs (s.pps.map (ppsNode c)) with
+    | false => rfl
+    | true =>
+      have := matchSeq_declared lx _ _ hm (ppsNode c p) (List.mem_map_of_mem hp)
+      simp only [ppsNode, trajNodeOf, hpk] at this
+      have hnone := C14_schema_order.1
+      simp only [schemaIndex] at hnone
+      simp [hnone] at this
+  simp [validate, this]
+
+/-- Likewise a document whose trajectories are not in the schema's order is rejected (concrete instance: KS before
+    PM), so the restriction "listed in the order it defines them" is needed too. -/
+theorem C14_order_needed (c : Codec) (lx : Lex) (auto : Option String) (s : Solution) (p q : PPS)
+    (hs : s.pps = [p, q]) (hp : p.ttype = .KS) (hq : q.ttype = .PM) (hg : s.pps.all goodPPS = true) :
     ∃ r, encodeSol c auto s = .ok r ∧ validate lx solSchema r = false := by
   refine ⟨_, encodeSol_ok c auto s hg, ?_⟩
   have : matchSeq lx solSchema.trajs (s.pps.map (ppsNode c)) = false := by
-    rw [hs, List.map_cons]
-    apply matchSeq_undeclared
-    simp only [ppsNode, trajNodeOf, hk]
-    exact C14_kst_not_in_schema
+    simp [hs, ppsNode, trajNodeOf, hp, hq, solSchema, matchSeq, trajTag]
   simp [validate, this]
 
 /-! ## the defect that was repaired: the reader's state-type table without KST -/
@@ -172,47 +272,64 @@ theorem C14_kst_document_invalid (c : Codec) (lx : Lex) (auto : Option String) (
 /-- With the `state_types` table as shipped before the repair (no `StateType.KST` key) reading any well-formed KST
     state ends in `KeyError`, for every codec and every typed state; with the repaired table it succeeds
     (`C14_state_roundtrip`). -/
-theorem C14_witness_unrepaired_kst_keyerror (c : Codec) (hc : c.Lawful) (st : State)
+theorem C14_witness_unrepaired_kst_keyerror (c : Codec) (st : State)
+    (hnum : ∀ v ∈ stateToks st, c.prsNum (c.fmtNum v) = .ok v) (hint : ∀ i, c.prsInt (c.fmtInt i) = .ok i)
     (ht : typedFor (table .KST) st = true) :
     parseStateWith readerStateTypesUnrepaired c .KST ⟨stateTag .KST, tableLeaves c st (table .KST)⟩ = .error .key := by
   obtain ⟨_, hnd, _, _, _, _, _, _⟩ := tableOK_parts .KST
-  have hp := parse_written c hc st (table .KST) [] ht hnd (by simp)
+  have hp := parse_written c st hnum hint (table .KST) [] ht hnd (by simp)
   simp only [List.nil_append] at hp
   have hk : readerStateTypesUnrepaired.contains TType.KST = false := by decide
   simp only [parseStateWith, bne_self_eq_false, Bool.false_eq_true, if_false, hp, hk]
 
 /-! ## non-vacuity: the hypotheses are satisfiable by concrete, non-trivial values -/
 
-/-- a lawful codec exists -/
+/-- texts Python really writes are in the grammar, others are not -/
+example : ["1e-05", "-0.0", "3", "1.7976931348623157e+308", "5e-324", "9007199254740992.0", "-7", "1.5e+16"].all
+    (fun t => pyNumL t.toList) = true := by decide
+example : ["inf", "nan", "-inf", "1e5", "1.", ".5", "+1.0", "1.0 ", "0x1p3", ""].any (fun t => pyNumL t.toList) = false := by
+  decide
+example : pyDateL "2020-01-02T03:04:05".toList = true ∧ pyDateL "999-01-02T03:04:05".toList = false ∧
+    pyDateL "2021-02-29T00:00:00".toList = false := by decide
+/-- the concrete checkers reject what the schema's types reject -/
+example : xsFloatL "inf".toList = false ∧ xsFloatL "1_0".toList = false ∧ xsIntL "2147483648".toList = false ∧
+    xsIntL "1.0".toList = false ∧ xsDateTimeL "999-01-02T03:04:05".toList = false := by decide
+
+/-- lawful codecs exist: the identity codec for all tokens, the decimal-text codec on Python's texts -/
 example : Codec.ident.Lawful := Codec.ident_lawful
 
 def exPM (t : Int) : State :=
-  [("time_step", .time t), ("position", .vec "0x1.8p+1" "-0x0.0p+0"), ("velocity", .num "0x1p-1074"),
-   ("velocity_y", .num "0x1.fffffffffffffp+1023")]
+  [("time_step", .time t), ("position", .vec "3.0" "-0.0"), ("velocity", .num "5e-324"),
+   ("velocity_y", .num "1.7976931348623157e+308")]
 
 def exKS (t : Int) : State :=
-  [("time_step", .time t), ("position", .vec "a" "b"), ("steering_angle", .num "c"), ("velocity", .num "d"),
-   ("orientation", .num "e")]
+  [("time_step", .time t), ("position", .vec "1.5" "2"), ("steering_angle", .num "1e-05"), ("velocity", .num "-7"),
+   ("orientation", .num "0.1")]
 
-def exKST (t : Int) : State := exKS t ++ [("hitch_angle", .num "h")]
+def exKST (t : Int) : State := exKS t ++ [("hitch_angle", .num "0.25")]
 
 /-- a cooperative solution: PM (states given out of order) and KS, in schema order, with date, time, name -/
 def exSol : Solution :=
-  ⟨"C-USA_US101-33_2_T-1", "2020a",
+  ⟨"C-USA_US101-33_2_T-1-2", "2020a",
    [⟨7, .PM, .BMW_320i, .JB1, .PM, ⟨2, [exPM 2, exPM 0, exPM 1]⟩⟩, ⟨3, .KS, .TRUCK, .SM1, .KS, ⟨5, [exKS 5]⟩⟩],
-   some ⟨"2020-01-02T03:04:05", 678⟩, some "0x1.8p+0", some "cpu <x>"⟩
+   some ⟨"2020-01-02T03:04:05", 678⟩, some "1.5", some "cpu <x>"⟩
 
 def exKstSol : Solution :=
   ⟨"ZAM_Test-1", "2020a", [⟨1, .KST, .TRUCK, .TR1, .KST, ⟨0, [exKST 0, exKST 1]⟩⟩], none, none, none⟩
 
-example : Admissible Codec.ident exSol := ⟨by decide, by decide, fun _ _ => rfl⟩
-example : Admissible Codec.ident exKstSol := ⟨by decide, by decide, fun _ h => by simp [exKstSol] at h⟩
-example : typedFor (table .KST) (exKST 4) = true := by decide
-example : typedFor (table .MB) ((classAttrs .MB).map fun a =>
-    (a, if a = "time_step" then FVal.time 3 else if a = "position" then FVal.vec "x" "y" else FVal.num a)) = true := by
-  decide
+example : Admissible Codec.py exSol :=
+  ⟨by decide, by decide, fun t h => by simp only [exSol, Option.some.injEq] at h; subst h; decide⟩
+example : Admissible Codec.py exKstSol := ⟨by decide, by decide, fun _ h => by simp [exKstSol] at h⟩
+example : ∀ v ∈ numToks exSol, pyNumL v.toList = true := by decide
+example : ∀ d, exSol.date = some d → pyDateL d.sec.toList = true := by
+  intro d h; simp only [exSol, Option.some.injEq] at h; subst h; decide
+example : ∀ t ∈ timeSteps exSol, t ≤ 2147483647 := by decide
 example : inSchemaOrder solSchema (exSol.pps.map fun p => trajTag p.ttype) = true := by decide
 example : inSchemaOrder solSchema ["ksTrajectory", "pmTrajectory"] = false := by decide
+example : typedFor (table .KST) (exKST 4) = true := by decide
+example : typedFor (table .MB) ((classAttrs .MB).map fun a =>
+    (a, if a = "time_step" then FVal.time 3 else if a = "position" then FVal.vec "1.0" "2.0" else FVal.num "0.5")) = true := by
+  decide
 example : IsNormal exKstSol := ⟨by decide, by simp [exKstSol], by simp [exKstSol]⟩
 /-- the out-of-order example is admissible but not in normal form: the round trip really reorders it -/
 example : ¬ IsNormal exSol := by
@@ -220,10 +337,9 @@ example : ¬ IsNormal exSol := by
   have := (h.1 _ (List.mem_cons_self ..)).2
   revert this
   decide
-/-- the lexical hypotheses of `C14_sol_valid` hold for a concrete checker and codec -/
-example : ∃ (c : Codec) (lx : Lex), (∀ v, lx.float (c.fmtNum v) = true) ∧ (∀ d, lx.dateTime (c.fmtDate d) = true) ∧
-    (∀ t : Int, 0 ≤ t → t ≤ 2147483647 → lx.int (c.fmtInt t) = true) ∧ (∃ t : Int, lx.int (c.fmtInt t) = false) :=
-  ⟨Codec.ident, ⟨fun _ => true, fun s => s.toInt?.any (fun i => decide (0 ≤ i ∧ i ≤ 2147483647)), fun _ => true⟩,
-   fun _ => rfl, fun _ => rfl, fun t h0 h1 => by simp [Codec.ident, h0, h1], ⟨-1, by simp [Codec.ident]⟩⟩
+/-- the scenario id of the example is the one C13 proves valid, so `C14_doc_roundtrip` applies to `exSol` -/
+example : exSol.scen = String.ofList (CR.BenchId.print (CR.BenchId.norm CR.BenchId.exRaw)) ∧
+    exSol.ver = String.ofList (CR.BenchId.norm CR.BenchId.exRaw).version := by decide
+example : (benchString (benchOf exSol)) = "[PM2,KS4]:[JB1,SM1]:C-USA_US101-33_2_T-1-2:2020a" := by decide
 
 end CR.Sol
